@@ -103,6 +103,7 @@ def axioms():
     ax('snoc_len', ForAll([s, x], slen(snoc(s, x)) == slen(s) + 1, patterns=[snoc(s, x)]))
     ax('snoc_at', ForAll([s, x, i], Implies(And(0 <= i, i < slen(s)), at(snoc(s, x), i) == at(s, i)),
                          patterns=[at(snoc(s, x), i)]))
+    ax('snoc_at_last', ForAll([s, x, i], Implies(i == slen(s), at(snoc(s, x), i) == x), patterns=[at(snoc(s, x), i)]))
     ax('snoc_last', ForAll([s, x], at(snoc(s, x), slen(s)) == x, patterns=[snoc(s, x)]))
     ax('snoc_mem', ForAll([s, x, y], mem(snoc(s, x), y) == Or(y == x, mem(s, y)),
                           patterns=[mem(snoc(s, x), y)]))
@@ -119,6 +120,8 @@ def axioms():
                             patterns=[mem(append(s, t), x)]))
     ax('append_mem2', ForAll([s, t, x], Implies(Or(mem(s, x), mem(t, x)), mem(append(s, t), x)),
                              patterns=[MultiPattern(append(s, t), mem(s, x)), MultiPattern(append(s, t), mem(t, x))]))
+    ax('append_single', ForAll([s, x], Implies(tag(s) == TAG_SEQ, append(s, snoc(seq_empty, x)) == snoc(s, x)),
+                               patterns=[append(s, snoc(seq_empty, x))]))
     ax('append_empty', ForAll([s], Implies(tag(s) == TAG_SEQ, append(s, seq_empty) == s),
                               patterns=[append(s, seq_empty)]))
     ax('take_tag', ForAll([s, n], tag(take(s, n)) == TAG_SEQ, patterns=[take(s, n)]))
@@ -129,6 +132,7 @@ def axioms():
     ax('take_mem', ForAll([s, n, x], Implies(And(0 <= n, n <= slen(s), mem(take(s, n), x)), mem(s, x)),
                           patterns=[mem(take(s, n), x)]))
     ax('take_all', ForAll([s], Implies(tag(s) == TAG_SEQ, take(s, slen(s)) == s), patterns=[take(s, slen(s))]))
+    ax('take_full', ForAll([s, n], Implies(And(tag(s) == TAG_SEQ, n == slen(s)), take(s, n) == s), patterns=[take(s, n)]))
     ax('take_snoc', ForAll([s, x], Implies(tag(s) == TAG_SEQ, take(snoc(s, x), slen(s)) == s),
                            patterns=[take(snoc(s, x), slen(s))]))
     ax('take_take', ForAll([s, n, i], Implies(And(0 <= i, i <= n, n <= slen(s)), take(take(s, n), i) == take(s, i)),
